@@ -42,11 +42,15 @@ const ContractFileName = "zz_verif_contracts.go"
 
 // Load loads the given package patterns (relative to the repo) with the verif tag.
 func Load(repoDir, verifDir string, patterns []string) (*Engine, error) {
+	if !strings.HasPrefix(os.Getenv("PATH"), "/opt/veriftools/go1.26.8/bin") {
+		os.Setenv("PATH", "/opt/veriftools/go1.26.8/bin:"+os.Getenv("PATH"))
+	}
 	cfg := &packages.Config{
 		Mode:       packages.LoadAllSyntax,
 		Dir:        repoDir,
 		BuildFlags: []string{"-tags=verif"},
-		Env:        append(os.Environ(), "GOFLAGS=-mod=mod", "GOPROXY=off", "GOSUMDB=off", "GOTOOLCHAIN=local"),
+		Env: append(os.Environ(), "GOFLAGS=-mod=mod", "GOPROXY=off", "GOSUMDB=off", "GOTOOLCHAIN=local",
+			"PATH=/opt/veriftools/go1.26.8/bin:"+os.Getenv("PATH")),
 	}
 	pkgs, err := packages.Load(cfg, patterns...)
 	if err != nil {
